@@ -1,8 +1,14 @@
 """C17 — HSTRP/RRS handler acknowledges each peer message exactly once, whatever the history (DESIGN §5 C17).
 
-Real code: HSTRPDatagramProtocol / RRSDatagramProtocol with a recording fake transport, in-process.
+Real code: HSTRPDatagramProtocol / RRSDatagramProtocol with recording fake transports, in-process.
 Model: lean/DmrVerif/Model/HstrpHandler.lean through drv_c17; its input is the abstraction of what the
 real HSTRP.from_bytes returns for each datagram (None on any exception) — the harness parses nothing itself.
+
+The property quantifies over all histories delivered to *the handler*, whatever its configuration, so
+every run is parametrised by a configuration: class (RRS / base), be_active_peer, port, transport present
+or absent, how the constructor was called, start attributes, logging on/off, sender address; and a
+history is a *script* of operations on one or several live handler objects (`World`): datagrams,
+connection_made / connection_lost, attribute re-assignment, periodic_maintenance iterations.
 """
 import asyncio
 import json
@@ -22,21 +28,95 @@ ANCHORS = ["okdmr/dmrlib/hytera/pdu/hdap.py", "okdmr/dmrlib/hytera/pdu/radio_ip.
 
 ADDR_A = ("192.0.2.1", 30001)
 ADDR_B = ("192.0.2.2", 30002)
+ADDRS = [ADDR_A, ADDR_B, ("192.0.2.1", 0), ("2001:db8::1", 30001, 0, 0), ("", 65535)]
+PORTS = [50000, 0, 1, 3002, 30001, 65535]
+# the service ports Hytera repeaters use (RRS, LP, TMP, RCP, telemetry, SDMP … for both slots): candidates for a port-keyed mode
+SERVICE_PORTS = [3002, 3003, 3004, 3005, 3006, 3007, 3009, 3017, 3018, 5016] + list(range(30001, 30019))
+CLOCK_JUMPS = [0.5, 5, 6, 7, 59, 61, 600, 3600, 86400, 30 * 86400]
+TICK_HOST = "192.168.22.18"  # what the model says (Props/C17.maintenance_match ties it to the code)
 
 
 class FakeTransport(asyncio.DatagramTransport):
-    def __init__(self):
+    """recording transport; all transports of one World write to one log: (transport id, data, addr)"""
+
+    def __init__(self, tid, log):
         super().__init__()
-        self.sent = []
+        self.tid = tid
+        self.log = log
+        self.closed = 0
 
     def sendto(self, data, addr=None):
-        self.sent.append((bytes(data), addr))
+        self.log.append((self.tid, bytes(data), addr))
 
     def is_closing(self):
-        return False
+        return self.closed > 0
 
     def close(self):
-        pass
+        self.closed += 1
+
+
+class CaptureLog(logging.Handler):
+    """logging-on mode: every record is formatted (as a real handler would), nothing is printed"""
+
+    def __init__(self):
+        super().__init__(level=logging.DEBUG)
+        self.records = 0
+        self.errors = 0
+
+    def emit(self, record):
+        try:
+            record.getMessage()
+            self.records += 1
+        except Exception:  # noqa
+            self.errors += 1
+
+
+CAPTURE = CaptureLog()
+
+
+class Clock:
+    """the handler's clock (datetime.now() in its module, time.time(), time.monotonic()) = real clock + offset;
+    the offset is only ever non-zero inside one random script"""
+
+    offset = 0.0
+    saved = None
+
+    @classmethod
+    def install(cls):
+        import datetime as _dt
+        import sys
+        import time as _time
+
+        mod = sys.modules[L["HSTRPDatagramProtocol"].__module__]
+        real_dt = getattr(mod, "datetime", None)
+        cls.saved = (mod, real_dt, _time.time, _time.monotonic)
+        if isinstance(real_dt, type) and issubclass(real_dt, _dt.datetime):
+
+            class Shifted(real_dt):
+                @classmethod
+                def now(klass, tz=None):
+                    return real_dt.now(tz) + _dt.timedelta(seconds=cls.offset)
+
+                @classmethod
+                def utcnow(klass):
+                    return real_dt.utcnow() + _dt.timedelta(seconds=cls.offset)
+
+            mod.datetime = Shifted
+        real_time, real_mono = _time.time, _time.monotonic
+        _time.time = lambda: real_time() + cls.offset
+        _time.monotonic = lambda: real_mono() + cls.offset
+
+    @classmethod
+    def uninstall(cls):
+        import time as _time
+
+        if cls.saved:
+            mod, real_dt, t, m = cls.saved
+            if real_dt is not None:
+                mod.datetime = real_dt
+            _time.time, _time.monotonic = t, m
+            cls.saved = None
+        cls.offset = 0.0
 
 
 def lib():
@@ -106,46 +186,326 @@ def abstract(data: bytes, sep=" "):
     return r
 
 
-class Handler:
-    def __init__(self, kind="rrs", connected=False, sn=0):
-        cls = L["RRSDatagramProtocol"] if kind == "rrs" else L["HSTRPDatagramProtocol"]
-        self.kind = kind
-        self.h = cls(port=50000)
-        self.t = FakeTransport()
-        self.h.connection_made(self.t)
-        self.h.hstrp_connected = connected
-        self.h.sn = sn
+# ------------------------------------------------------------------------------------------------
+# handler objects and the world they live in
 
-    def state(self) -> str:
-        reg = getattr(self.h, "registry", {})
+
+class SkipHistory(Exception):
+    """the constructor itself failed (recorded as an oracle failure): nothing to deliver to"""
+
+
+class Handler:
+    """one real handler object, what it was built from, and what the property implies for it so far"""
+
+    __slots__ = ("name", "kind", "h", "exp_registry", "rxprefix", "fp")
+
+    def __init__(self, name, kind, h):
+        self.name, self.kind, self.h = name, kind, h
+        self.exp_registry = {}
+        self.rxprefix = f"rx {name} "
+        self.fp = None
+
+
+def construct(kind, active, port, how):
+    """the constructor, called in one of the ways a caller can (`how`)"""
+    cls = L["RRSDatagramProtocol"] if kind == "rrs" else L["HSTRPDatagramProtocol"]
+    if how == 1:
+        return cls(port, active)  # positional
+    if how == 2:
+        h = cls(port)  # default mode, then re-configured before any traffic
+        if active:
+            h.be_active_peer = active
+        return h
+    if how == 3:
+        return cls(port=port, be_active_peer=int(active))  # truthy / falsy instead of bool
+    return cls(port=port, be_active_peer=active)
+
+
+class World:
+    """Several live handler objects, their transports, the script that led here.  Every operation runs
+    on the real object, appends (model line, implementation line) to `pairs` and evaluates the property."""
+
+    def __init__(self, ctx, pairs, tag=None):
+        self.ctx, self.pairs = ctx, pairs
+        self.log = []
+        self.h = {}
+        self.script = []
+        self.next_tid = 0
+        self.tag = tag
+        self._start = len(pairs)
+        self.setup_pairs = None
+        pairs.append(("reset", "ok"))
+
+    # ---- bookkeeping
+    def end_setup(self):
+        self.setup_pairs = list(self.pairs[self._start:])
+
+    def resync(self):
+        """after the pairs were flushed (the driver process ended): re-establish the set-up state"""
+        self.pairs.extend(self.setup_pairs)
+
+    def state(self, hd) -> str:
+        h = hd.h
+        reg = getattr(h, "registry", {})
         regs = ",".join(f"{socket.inet_aton(k).hex()}:{'1' if v == L['RRSRadioState'].Online else '0'}" for k, v in reg.items())
-        return f"c={int(self.h.hstrp_connected)} sn={self.h.sn} reg={regs or '-'}"
+        t = h.transport
+        return (
+            f"c={int(bool(h.hstrp_connected))} sn={h.sn} reg={regs or '-'} ap={int(bool(h.be_active_peer))}"
+            f" port={h.port} tr={t.tid if isinstance(t, FakeTransport) else '-'}"
+        )
+
+    @staticmethod
+    def fingerprint(hd):
+        h = hd.h
+        reg = getattr(h, "registry", None)
+        return (h.hstrp_connected, h.sn, tuple(reg.items()) if reg is not None else None, h.be_active_peer, h.port, h.transport,
+                h.transport.closed if isinstance(h.transport, FakeTransport) else None)
+
+    def fail(self, kind, what, expected=None, actual=None):
+        self.ctx.count(f"oracle-failure:{kind}")
+        if len(self.ctx.failures) < MAX_FAILURES:
+            self.ctx.fail(kind, {"script": script_json(self.script)}, what, expected=expected, actual=actual)
+
+    def others_untouched(self, name, what):
+        """instance isolation: an operation on one handler leaves every other live handler (and its transport) alone"""
+        for n, o in self.h.items():
+            if n == name:
+                continue
+            fp = self.fingerprint(o)
+            if fp != o.fp:
+                self.fail("instance-isolation", f"{what} on handler {name} changed the state of handler {n}", expected=str(o.fp[:5]), actual=str(fp[:5]))
+                o.fp = fp
+
+    def _done(self, hd, model_line, line):
+        self.pairs.append((model_line, line))
+        if len(self.h) > 1:
+            self.others_untouched(hd.name, model_line.split(" ")[0])
+        hd.fp = self.fingerprint(hd)
 
     def snapshot(self):
-        return {k: (dict(v) if isinstance(v, dict) else v) for k, v in vars(self.h).items()}
+        snap = []
+        for hd in self.h.values():
+            v = {k: (dict(x) if isinstance(x, dict) else x) for k, x in vars(hd.h).items()}
+            t = hd.h.transport
+            snap.append((hd, v, t.closed if isinstance(t, FakeTransport) else 0, dict(hd.exp_registry), hd.fp))
+        return snap, len(self.script), set(self.h)
 
-    def restore(self, snap):
-        vars(self.h).clear()
-        vars(self.h).update({k: (dict(v) if isinstance(v, dict) else v) for k, v in snap.items()})
+    def restore(self, snapshot):
+        snap, n, names = snapshot
+        for name in list(self.h):
+            if name not in names:
+                del self.h[name]
+        for hd, v, closed, reg, fp in snap:
+            d = vars(hd.h)
+            d.clear()
+            d.update({k: (dict(x) if isinstance(x, dict) else x) for k, x in v.items()})
+            if isinstance(hd.h.transport, FakeTransport):
+                hd.h.transport.closed = closed
+            hd.exp_registry = reg
+            hd.fp = fp
+        del self.script[n:]
 
-    def deliver(self, data: bytes, addr):
-        """returns (canonical answer line, outputs [(bytes, addr)], raw return or exception)"""
-        self.t.sent.clear()
+    # ---- operations
+    def new(self, name, kind="rrs", active=False, port=50000, how=0):
+        self.script.append(("new", name, kind, bool(active), port, how))
         try:
-            ret = self.h.datagram_received(data, addr)
+            h = construct(kind, active, port, how)
         except BaseException as e:  # noqa
-            return impl_error(e), list(self.t.sent), e
-        outs = list(self.t.sent)
-        for _, a in outs:
-            if a != addr:
-                return f"ERR sent-to-other-address {a}", outs, ret
-        handled, pdu = ret
-        line = (
-            "outs=" + (",".join(o.hex() for o, _ in outs) or "-")
-            + f" ret={int(bool(handled))}{int(pdu is not None)} " + self.state()
-            + " peer=" + (",".join(abstract(o, "/") for o, _ in outs) or "-")
-        )
-        return line, outs, ret
+            self.fail("raises", f"the constructor raised {type(e).__name__}: {e}")
+            raise SkipHistory() from e
+        hd = Handler(name, kind, h)
+        self.h[name] = hd
+        line = self.state(hd)
+        # a new handler is empty, whatever other handlers have seen (class-level / default-argument state)
+        if h.hstrp_connected is not False or h.sn != 0 or getattr(h, "registry", {}) != {} or h.transport is not None:
+            self.fail("new-handler-not-empty", "a newly constructed handler does not start disconnected, S/N 0, empty registry, no transport", expected="c=0 sn=0 reg=- tr=-", actual=line)
+        if bool(h.be_active_peer) != bool(active) or h.port != port:
+            self.fail("config-not-stored", "constructor arguments are not what the handler stores", expected=[bool(active), port], actual=[h.be_active_peer, h.port])
+        self._done(hd, f"new {name} {kind} {int(bool(active))} {port}", line)
+        return hd
+
+    def made(self, name, pre_closed=False):
+        """connection_made with a fresh transport; `pre_closed`: the old transport reports is_closing()"""
+        hd = self.h[name]
+        h = hd.h
+        self.script.append(("made", name, bool(pre_closed)))
+        old = h.transport
+        if pre_closed and isinstance(old, FakeTransport) and not old.closed:
+            old.closed = 1
+        old_closing = isinstance(old, FakeTransport) and old.closed > 0
+        old_count = old.closed if isinstance(old, FakeTransport) else 0
+        keep = (h.hstrp_connected, h.sn, dict(getattr(h, "registry", {})), h.be_active_peer, h.port)
+        t = FakeTransport(self.next_tid, self.log)
+        self.next_tid += 1
+        del self.log[:]
+        try:
+            h.connection_made(t)
+            closed = "-"
+            if isinstance(old, FakeTransport) and old.closed > old_count:
+                closed = str(old.tid)
+            line = f"closed={closed} " + self.state(hd)
+        except BaseException as e:  # noqa
+            line = impl_error(e) + " " + self.state(hd)
+            self.fail("raises", f"connection_made raised {type(e).__name__}: {e}")
+        if h.transport is not t or self.log or keep != (h.hstrp_connected, h.sn, dict(getattr(h, "registry", {})), h.be_active_peer, h.port):
+            self.fail("connection-made", "connection_made did not just store the transport", expected="transport stored, nothing sent, state kept", actual=line)
+        self._done(hd, f"made {name} {t.tid} {int(old_closing)}", line)
+
+    def lost(self, name):
+        hd = self.h[name]
+        h = hd.h
+        self.script.append(("lost", name))
+        keep = (h.sn, dict(getattr(h, "registry", {})), h.be_active_peer, h.port, h.transport)
+        del self.log[:]
+        try:
+            h.connection_lost(None)
+            line = self.state(hd)
+        except BaseException as e:  # noqa
+            line = impl_error(e) + " " + self.state(hd)
+            self.fail("raises", f"connection_lost raised {type(e).__name__}: {e}")
+        if h.hstrp_connected is not False or self.log or keep != (h.sn, dict(getattr(h, "registry", {})), h.be_active_peer, h.port, h.transport):
+            self.fail("connection-lost", "connection_lost did not just reset the connected flag", expected="c=0, rest kept, nothing sent", actual=line)
+        self._done(hd, f"lost {name}", line)
+
+    def set(self, name, attr, value):
+        """attribute re-configuration between datagrams"""
+        hd = self.h[name]
+        h = hd.h
+        self.script.append(("set", name, attr, value))
+        if attr == "connected":
+            h.hstrp_connected = bool(value)
+        elif attr == "connected-call":  # through the helper the class offers
+            h.hstrp_set_connected(bool(value))
+        elif attr == "sn":
+            h.sn = int(value)
+        elif attr == "active":
+            h.be_active_peer = bool(value)
+        elif attr == "port":
+            h.port = int(value)
+        elif attr == "registry":  # the application drops what it knew (e.g. restart of the upper layer)
+            h.registry = {}
+            hd.exp_registry = {}
+        else:
+            raise AssertionError(attr)
+        self._done(hd, f"set {name} {'connected' if attr == 'connected-call' else attr} {int(value)}", self.state(hd))
+
+    def clock(self, seconds):
+        """time passes (the model has no clock: nothing the property states depends on it)"""
+        self.script.append(("clock", seconds))
+        Clock.offset = min(Clock.offset + seconds, 10 * 365 * 86400.0)
+
+    def tick(self, name):
+        """one iteration of periodic_maintenance"""
+        hd = self.h[name]
+        h = hd.h
+        self.script.append(("tick", name))
+        before = self.fingerprint(hd)
+        del self.log[:]
+        exc = one_tick(h)
+        outs = list(self.log)
+        if exc is not None:
+            line = impl_error(exc) + " " + self.state(hd)
+            if not (isinstance(exc, AttributeError) and h.transport is None and not h.hstrp_connected):
+                self.fail("raises", f"periodic_maintenance raised {type(exc).__name__}: {exc}")
+            else:
+                self.ctx.count("precondition:tick-without-transport-raises")
+        else:
+            to = ",".join(sorted({f"{a[0]}:{a[1]}" for _, _, a in outs})) or "-"
+            via = ",".join(sorted({str(t) for t, _, _ in outs})) or "-"
+            line = "outs=" + (",".join(o.hex() for _, o, _ in outs) or "-") + f" to={to} via={via} " + self.state(hd)
+        if self.fingerprint(hd) != before:
+            self.fail("maintenance-changes-state", "an iteration of periodic_maintenance changed the handler's state", expected=str(before[:5]), actual=self.state(hd))
+        self._done(hd, f"tick {name}", line)
+
+    def query(self, name):
+        hd = self.h[name]
+        self.pairs.append((f"state {name}", self.state(hd)))
+
+    def rx(self, name, dg, addr=ADDR_A):
+        hd = self.h[name]
+        h = hd.h
+        before = (h.hstrp_connected, h.sn)
+        frame = (h.be_active_peer, h.port, h.transport)
+        self.script.append(("rx", name, dg, addr))
+        log = self.log
+        del log[:]
+        try:
+            ret = h.datagram_received(dg.data, addr)
+        except BaseException as e:  # noqa
+            ret = e
+        outs = list(log)
+        if isinstance(ret, BaseException):
+            line = impl_error(ret) + " " + self.state(hd)
+        else:
+            line = None
+            for _, _, a in outs:
+                if a != addr:
+                    line = f"ERR sent-to-other-address {a}"
+            if line is None:
+                try:
+                    handled, pdu = ret
+                    via = ",".join(sorted({str(t) for t, _, _ in outs})) or "-"
+                    line = (
+                        "outs=" + (",".join(o.hex() for _, o, _ in outs) or "-")
+                        + f" via={via} ret={int(bool(handled))}{int(pdu is not None)} " + self.state(hd)
+                        + " peer=" + (",".join(abstract(o, "/") for _, o, _ in outs) or "-")
+                    )
+                except (TypeError, ValueError):
+                    line = "ERR bad-return-value"
+        model_line = hd.rxprefix + abstract(dg.data)
+        oracle(self, hd, before, frame, dg, addr, outs, ret)
+        self._done(hd, model_line, line)
+        return ret, outs
+
+
+_LOOP = None
+
+
+def one_tick(h):
+    """runs `periodic_maintenance` up to its first `await asyncio.sleep(5)` and cancels it there; returns the exception it raised, if any"""
+    global _LOOP
+    if _LOOP is None or _LOOP.is_closed():
+        _LOOP = asyncio.new_event_loop()
+
+    async def go():
+        task = asyncio.ensure_future(h.periodic_maintenance())
+        await asyncio.sleep(0)
+        if not task.done():
+            task.cancel()
+        try:
+            await task
+        except asyncio.CancelledError:
+            return None
+        except BaseException as e:  # noqa
+            return e
+        return None
+
+    return _LOOP.run_until_complete(go())
+
+
+def script_json(script):
+    out = []
+    for op in script:
+        if op[0] == "rx":
+            out.append(["rx", op[1], op[2].json(), list(op[3])])
+        else:
+            out.append(list(op))
+    return out
+
+
+def script_unjson(js):
+    out = []
+    for op in js:
+        if op[0] == "rx":
+            out.append(("rx", op[1], Dg.unjson(op[2]), tuple(op[3])))
+        else:
+            out.append(tuple(op))
+    return out
+
+
+def run_script(world, script):
+    for op in script:
+        getattr(world, op[0])(*op[1:])
 
 
 # ------------------------------------------------------------------------------------------------
@@ -194,37 +554,57 @@ def is_ack_datagram(o: bytes) -> bool:
 HEARTBEAT = bytes.fromhex("324200020000")
 
 
-def oracle(ctx, hd, before, dg, outs, ret, history, exp_registry):
-    """C17 as stated, for one delivery; `before` = (connected, sn) before the call"""
-
-    def fail(kind, what, expected=None, actual=None):
-        ctx.count(f"oracle-failure:{kind}")
-        if len(ctx.failures) < 200:
-            ctx.fail(kind, {"handler": hd.kind, "start": history["start"], "datagrams": [d.json() for d in history["datagrams"]]}, what, expected=expected, actual=actual)
-
+def oracle(w, hd, before, frame, dg, addr, outs, ret):
+    """C17 as stated, for one delivery to handler `hd` of world `w`; `before` = (connected, sn) before the
+    call, `frame` = (be_active_peer, port, transport) before the call, `outs` = [(transport id, data, addr)]"""
+    fail = w.fail
     data, meta = dg.data, dg.meta
-    if isinstance(ret, BaseException):
-        fail("raises", f"datagram_received raised {type(ret).__name__}: {ret}")
-        return
-    out_bytes = [o for o, _ in outs]
     h = hd.h
+    exp_registry = hd.exp_registry
+    transport = frame[2]
+    has_tr = transport is not None
     pdu = parse(data)
+    # ---- the configuration is not the datagram's business
+    if h.be_active_peer is not frame[0] or h.port is not frame[1] or h.transport is not transport:
+        fail("config-changed", "datagram_received changed be_active_peer / port / transport", expected=str(frame[:2]), actual=str((h.be_active_peer, h.port)))
+    # ---- what the datagram is (as built, else raw header octets + the library's reading of options / RRS)
+    fields = None
+    if meta is not None:
+        fields = (meta["tb"], meta["sn"], meta["version"], meta["opts"], meta["rrs"])
+    elif pdu is not None:
+        rp = pdu.payload if isinstance(pdu.payload, L["RadioRegistrationService"]) else None
+        fields = (data[3], int.from_bytes(data[4:6], "big"), data[2], pdu.options.as_bytes(), (rp.opcode.value, tuple(rp.radio_ip.as_bytes())) if rp is not None else None)
+    rrs = fields[4] if fields else None
+    is_request = hd.kind == "rrs" and rrs is not None and rrs[0] == 3
+    is_offline = hd.kind == "rrs" and rrs is not None and rrs[0] == 1
+    raised = isinstance(ret, BaseException)
+    if raised:
+        # the one documented precondition: rrs_confirm needs the transport connection_made stores (asyncio
+        # calls connection_made before any datagram).  Without it a registration request ends in
+        # AttributeError after registry and S/N were updated — everything else must not raise.
+        if not has_tr and is_request and isinstance(ret, AttributeError) and (meta is None or pdu is not None):
+            w.ctx.count("precondition:registration-without-transport-raises")
+        else:
+            fail("raises", f"datagram_received raised {type(ret).__name__}: {ret}")
+            return
+    out_bytes = [o for _, o, _ in outs]
+    if not has_tr and out_bytes:
+        fail("sent-without-transport", "a handler that has no transport sent something", expected=[], actual=[o.hex() for o in out_bytes])
+    if has_tr and any(t != transport.tid for t, _, _ in outs):
+        fail("sent-through-other-transport", "answers went through a transport that is not this handler's", expected=transport.tid, actual=[t for t, _, _ in outs])
+    if any(a != addr for _, _, a in outs):
+        fail("sent-to-other-address", "an answer was not sent to the sender of the datagram", expected=str(addr), actual=str([a for _, _, a in outs]))
     if meta is not None:
         # well-formed by construction: the handler has to read it
         if pdu is None:
             if not out_bytes:
                 fail("wellformed-ignored", "a well-formed HSTRP datagram was treated as 'not an HSTRP' (no acknowledgement, no handling)", expected="handled", actual="ignored")
             return
-        tb, sn, version, opts, rrs = meta["tb"], meta["sn"], meta["version"], meta["opts"], meta["rrs"]
-    else:
-        if pdu is None:
-            if out_bytes or ret != (False, None) or (h.hstrp_connected, h.sn) != before:
-                fail("non-hstrp-handled", "a datagram that is no HSTRP caused output / state change", expected="no output, (False, None)", actual=str((len(out_bytes), ret[0])))
-            return
-        tb, sn, version = data[3], int.from_bytes(data[4:6], "big"), data[2]
-        opts = pdu.options.as_bytes()
-        rp = pdu.payload if isinstance(pdu.payload, L["RadioRegistrationService"]) else None
-        rrs = (rp.opcode.value, tuple(rp.radio_ip.as_bytes())) if rp is not None else None
+    elif pdu is None:
+        if out_bytes or raised or ret != (False, None) or (h.hstrp_connected, h.sn) != before:
+            fail("non-hstrp-handled", "a datagram that is no HSTRP caused output / state change", expected="no output, (False, None)", actual=str((len(out_bytes), None if raised else ret[0])))
+        return
+    tb, sn, version, opts, rrs = fields
     is_ack, is_hb, is_connect, is_close = bool(tb & 0x01), bool(tb & 0x02), bool(tb & 0x04), bool(tb & 0x08)
     connect_c = is_connect
     heartbeat_c = not is_connect and is_hb
@@ -232,32 +612,31 @@ def oracle(ctx, hd, before, dg, outs, ret, history, exp_registry):
     acks = [o for o in out_bytes if is_ack_datagram(o)]
     beats = [o for o in out_bytes if o == HEARTBEAT]
     others = [o for o in out_bytes if not is_ack_datagram(o) and o != HEARTBEAT]
-    is_request = hd.kind == "rrs" and rrs is not None and rrs[0] == 3
-    is_offline = hd.kind == "rrs" and rrs is not None and rrs[0] == 1
-    # ---- acknowledgements
-    if not is_ack and not heartbeat_c:
-        # connect, close, data (and reject) messages: exactly one acknowledgement: ack bit, the same 16-bit S/N,
-        # nothing after the header but (at most) the request's options — no payload
-        ok = len(acks) == 1
-        if ok:
-            a = acks[0]
-            ok = a[:2] == b"2B" and a[4:6] == sn.to_bytes(2, "big") and a[6:] in (opts, b"") and not (a[3] & 0x10)
-        if not ok:
-            want = b"2B" + bytes([version, ((tb & 0x3F) | 0x01) & ~0x10]) + sn.to_bytes(2, "big") + opts
-            fail("ack-not-exactly-once", "a connect/close/data message was not answered by exactly one acknowledgement with its S/N and no payload", expected=[want.hex()], actual=[a.hex() for a in acks])
-    else:
-        if acks:
-            kind = "ack-answered" if is_ack else "heartbeat-acknowledged"
-            fail(kind, "an acknowledgement / heartbeat was acknowledged", expected=[], actual=[a.hex() for a in acks])
-    if is_ack and not heartbeat_c:
-        # acknowledgements are never answered; the only datagram an ack-typed message can trigger is the RRS
-        # answer to a registration request it carries
-        if beats or (others and not is_request):
-            fail("ack-answered", "a message with the acknowledgement bit was answered", expected=[], actual=[o.hex() for o in out_bytes])
-    # ---- heartbeat echo only while connected
-    exp_beats = 1 if (heartbeat_c and before[0]) else 0
-    if len(beats) != exp_beats:
-        fail("heartbeat-echo", "heartbeat echoed while not connected / not echoed while connected / echoed for a non-heartbeat", expected=exp_beats, actual=len(beats))
+    if has_tr:
+        # ---- acknowledgements
+        if not is_ack and not heartbeat_c:
+            # connect, close, data (and reject) messages: exactly one acknowledgement: ack bit, the same 16-bit S/N,
+            # nothing after the header but (at most) the request's options — no payload
+            ok = len(acks) == 1
+            if ok:
+                a = acks[0]
+                ok = a[:2] == b"2B" and a[4:6] == sn.to_bytes(2, "big") and a[6:] in (opts, b"") and not (a[3] & 0x10)
+            if not ok:
+                want = b"2B" + bytes([version, ((tb & 0x3F) | 0x01) & ~0x10]) + sn.to_bytes(2, "big") + opts
+                fail("ack-not-exactly-once", "a connect/close/data message was not answered by exactly one acknowledgement with its S/N and no payload", expected=[want.hex()], actual=[a.hex() for a in acks])
+        else:
+            if acks:
+                kind = "ack-answered" if is_ack else "heartbeat-acknowledged"
+                fail(kind, "an acknowledgement / heartbeat was acknowledged", expected=[], actual=[a.hex() for a in acks])
+        if is_ack and not heartbeat_c:
+            # acknowledgements are never answered; the only datagram an ack-typed message can trigger is the RRS
+            # answer to a registration request it carries
+            if beats or (others and not is_request):
+                fail("ack-answered", "a message with the acknowledgement bit was answered", expected=[], actual=[o.hex() for o in out_bytes])
+        # ---- heartbeat echo only while connected — in every configuration
+        exp_beats = 1 if (heartbeat_c and before[0]) else 0
+        if len(beats) != exp_beats:
+            fail("heartbeat-echo", "heartbeat echoed while not connected / not echoed while connected / echoed for a non-heartbeat", expected=exp_beats, actual=len(beats))
     # ---- connected flag = last connect/close seen was a connect
     exp_conn = True if connect_c else False if close_c else before[0]
     if h.hstrp_connected != exp_conn:
@@ -269,7 +648,7 @@ def oracle(ctx, hd, before, dg, outs, ret, history, exp_registry):
         got = {k: v.name for k, v in h.registry.items()}
         if got != exp_registry:
             fail("registry", "registry differs from the fold of the last registration/offline message per radio", expected=str(exp_registry), actual=str(got))
-        if is_request:
+        if is_request and has_tr:
             # exactly one success answer (result 0, renewal 300 s) for this radio, with the handler's 16-bit S/N
             ok = len(others) == 1 and 0 <= h.sn < 65536
             want = None
@@ -280,10 +659,16 @@ def oracle(ctx, hd, before, dg, outs, ret, history, exp_registry):
                 fail("registration-answer", "a registration request was not answered by exactly one success answer with a 16-bit S/N", expected=[want.hex()] if want else 1, actual=[o.hex() for o in others])
         elif others:
             fail("unexpected-output", "output that is neither acknowledgement, heartbeat nor a registration answer to a request", actual=[o.hex() for o in others])
-        if not is_request and h.sn != before[1]:
+        if is_request:
+            if not 0 <= h.sn < 65536:
+                fail("sn-range", "own sequence number does not fit 16 bits", actual=h.sn)
+        elif h.sn != before[1]:
             fail("sn-changed", "own sequence number changed without a registration answer", expected=before[1], actual=h.sn)
-    elif others:
-        fail("unexpected-output", "base handler sent something that is neither acknowledgement nor heartbeat", actual=[o.hex() for o in others])
+    else:
+        if others:
+            fail("unexpected-output", "base handler sent something that is neither acknowledgement nor heartbeat", actual=[o.hex() for o in others])
+        if h.sn != before[1]:
+            fail("sn-changed", "own sequence number of the base handler changed", expected=before[1], actual=h.sn)
 
 
 # ------------------------------------------------------------------------------------------------
@@ -370,6 +755,9 @@ CORPUS = [
     ("connect-ack-direct", [hstrp(0x05), hstrp(0x09), hstrp(0x05)]),
     ("register-then-offline", [hstrp(0x04), CLASSES[7][1], CLASSES[8][1], CLASSES[13][1]]),
     # sequence numbers above one octet: the acknowledgement carries both octets
+    # option blocks at their smallest: one value-less option (RTP) and nothing behind it; one option then a payload
+    ("single-valueless-option", [hstrp(0x24, opts=b"\x01\x00"), hstrp(0x20, sn=0x13, opts=b"\x01\x00"), hstrp(0x28, sn=2, opts=b"\x01\x00"),
+                                 hstrp(0x20, sn=3, opts=b"\x01\x00", rrs=(3, R101)), hstrp(0x20, sn=4, opts=b"\x04\x01\x02", other=RCP_CALL)]),
     ("two-octet-sn", [hstrp(0x04, sn=0x0100), hstrp(0x08, sn=0x1234), hstrp(0x00, sn=0xFFFF), hstrp(0x20, sn=0xABCD, opts=OPTS, rrs=(3, R100)), hstrp(0x10, sn=0x0101)]),
 ]
 
@@ -433,90 +821,120 @@ def random_datagram(rng) -> Dg:
 
 
 # ------------------------------------------------------------------------------------------------
-def run_history(ctx, kind, start, datagrams, pairs, name="A"):
+def make_world(ctx, pairs, cfg, start=(False, 0), name="A", tag=None):
+    """a world with one handler of configuration `cfg` = (kind, active, transport present, port, how), brought to `start`"""
+    kind, active, transport, port, how = cfg
+    w = World(ctx, pairs, tag)
+    w.new(name, kind, active, port, how)
+    if transport:
+        w.made(name)
+    if start[0]:
+        w.set(name, "connected", True)
+    if start[1]:
+        w.set(name, "sn", start[1])
+    w.end_setup()
+    return w
+
+
+def cfg_key(cfg):
+    return f"cfg:kind={cfg[0]},active={int(bool(cfg[1]))},transport={int(bool(cfg[2]))}"
+
+
+def run_history(ctx, cfg, start, datagrams, pairs, name="A"):
     """delivers a history (list of Dg) to a fresh handler; oracle on every delivery; model lines appended"""
-    hd = Handler(kind, connected=start[0], sn=start[1])
-    pairs.append((f"reset {int(start[0])} {start[1]}", "ok"))
-    history = {"start": list(start), "datagrams": []}
-    exp_registry = {}
+    w = make_world(ctx, pairs, cfg, start, name)
     for dg in datagrams:
-        before = (hd.h.hstrp_connected, hd.h.sn)
-        history["datagrams"].append(dg)
-        line, outs, ret = hd.deliver(dg.data, ADDR_A)
+        w.rx(name, dg)
         ab = abstract(dg.data)
-        pairs.append((f"rx {name} {kind} {ab}", line))
-        oracle(ctx, hd, before, dg, outs, ret, history, exp_registry)
         ctx.count(f"msg:{'none' if ab == 'none' else ab.split(' ')[1]}")
-    return hd
+    ctx.count(cfg_key(cfg))
+    return w
 
 
-def dfs(ctx, kind, start, classes, maxlen, pairs, flush):
-    """all sequences up to maxlen over `classes`, sharing prefixes by snapshot/restore of the handler"""
-    hd = Handler(kind, connected=start[0], sn=start[1])
-    pairs.append((f"reset {int(start[0])} {start[1]}", "ok"))
-    lines = [f"rx A {kind} {abstract(d.data)}" for _, d in classes]
-    nontriv = [abstract(d.data) != "none" for _, d in classes]
-    history = {"start": list(start), "datagrams": []}
+def sym_rx(name, dg, addr=ADDR_A):
+    return lambda w: w.rx(name, dg, addr)
+
+
+def event_symbols(name, cls):
+    """the event alphabet: 8 datagram classes + connection_lost, connection_made (fresh transport),
+    be_active_peer toggled, port re-assigned, one periodic_maintenance iteration"""
+    pick = ("connect", "connect-ack", "heartbeat", "close", "ack", "rrs-register", "rrs-offline", "garbage")
+    by = dict(cls)
+    syms = [(c, sym_rx(name, by[c]), abstract(by[c].data) != "none") for c in pick]
+    syms += [
+        ("lost", lambda w: w.lost(name), True),
+        ("made", lambda w: w.made(name), True),
+        ("toggle-active", lambda w: w.set(name, "active", not w.h[name].h.be_active_peer), True),
+        ("set-port", lambda w: w.set(name, "port", (w.h[name].h.port + 7) % 65536), True),
+        ("tick", lambda w: w.tick(name), True),
+    ]
+    return syms
+
+
+MAX_FAILURES = 200
+
+
+def dfs(ctx, w, symbols, maxlen, flush, tag):
+    """all sequences up to maxlen over `symbols` [(label, fn(world), nontrivial)], sharing prefixes by
+    snapshot/restore of the world (model: push / pop)"""
+    pairs = w.pairs
     count = 0
     path = []
 
-    def rec(depth, exp_registry):
+    def rec(depth):
         nonlocal count
-        for ci, (cname, dg) in enumerate(classes):
-            snap = hd.snapshot()
-            before = (hd.h.hstrp_connected, hd.h.sn)
-            history["datagrams"].append(dg)
-            if depth + 1 < maxlen:
-                pairs.append(("push", "ok"))
-            line, outs, ret = hd.deliver(dg.data, ADDR_A)
-            pairs.append((lines[ci], line))
-            reg = dict(exp_registry)
-            oracle(ctx, hd, before, dg, outs, ret, history, reg)
+        for si, (label, fn, nontriv) in enumerate(symbols):
+            if depth == 0 and len(ctx.failures) >= MAX_FAILURES:
+                return  # as many failing inputs as are ever recorded: the search has done its job
+            snap = w.snapshot()
+            pairs.append(("push", "ok"))
+            fn(w)
             count += 1
-            path.append(ci)
-            ctx.case((kind, start, tuple(path)), nontrivial=nontriv[ci])
+            path.append(si)
+            ctx.case((tag, tuple(path)), nontrivial=nontriv)
             if depth + 1 < maxlen:
-                rec(depth + 1, reg)
-                pairs.append(("pop", "ok"))
-                hd.restore(snap)
-            else:
-                # leaf: restore by hand on both sides (the model line is a push/pop pair around the leaf)
-                hd.restore(snap)
-                pairs[-1:] = [("push", "ok"), pairs[-1], ("pop", "ok")]
-            history["datagrams"].pop()
+                rec(depth + 1)
+            pairs.append(("pop", "ok"))
+            w.restore(snap)
             path.pop()
-            if len(pairs) > 300000 and depth == 0:
+            if depth == 0 and len(pairs) > 300000:
                 flush()
                 # a flush ends the driver process: re-establish the start state (we are back at it)
-                pairs.append((f"reset {int(start[0])} {start[1]}", "ok"))
+                w.resync()
 
-    rec(0, {})
+    rec(0)
     return count
 
 
-def pingpong(ctx, kind, first: bytes, conn_a, conn_b, pairs, max_rounds=6):
+def dfs_classes(ctx, pairs, flush, cfg, start, cls, maxlen, name="A"):
+    try:
+        w = make_world(ctx, pairs, cfg, start, name)
+    except SkipHistory:
+        return 0
+    syms = [(c, sym_rx(name, dg), abstract(dg.data) != "none") for c, dg in cls]
+    n = dfs(ctx, w, syms, maxlen, flush, ("dfs", cfg, start))
+    ctx.count(cfg_key(cfg), n)
+    return n
+
+
+def pingpong(ctx, kind, first: bytes, conn, active, pairs, max_rounds=6):
     """deliver `first` to A, A's answers to B, B's answers to A, …; returns the number of delivery rounds
-    until nothing is sent any more (None if still talking after max_rounds)"""
-    a = Handler(kind, connected=conn_a)
-    b = Handler(kind, connected=conn_b)
-    # the model keeps A and B; reset sets both to the same flag, so set B by a connect/close-ack first if needed
-    pairs.append((f"reset {int(conn_a)} 0", "ok"))
-    if conn_b != conn_a:
-        setter = raw_hstrp(0x05) if conn_b else raw_hstrp(0x09)
-        b2 = Handler(kind, connected=conn_a)
-        line, _, _ = b2.deliver(setter, ADDR_A)
-        pairs.append((f"rx B {kind} {abstract(setter)}", line))
+    until nothing is sent any more (None if still talking after max_rounds).  conn / active = (A's, B's)."""
+    w = World(ctx, pairs)
+    for i, n in enumerate("AB"):
+        w.new(n, kind, active[i], 50000 + i, how=i)
+        w.made(n)
+        if conn[i]:
+            w.set(n, "connected", True)
     inbox, who = [first], 0
     for rnd in range(max_rounds):
-        hd, name, addr = (a, "A", ADDR_B) if who == 0 else (b, "B", ADDR_A)
+        name, addr = ("A", ADDR_B) if who == 0 else ("B", ADDR_A)
         nxt = []
         for d in inbox:
-            line, outs, ret = hd.deliver(d, addr)
-            pairs.append((f"rx {name} {kind} {abstract(d)}", line))
+            ret, outs = w.rx(name, Dg(d), addr)
             if isinstance(ret, BaseException):
-                ctx.fail("raises", {"pingpong": first.hex(), "kind": kind, "connected": [conn_a, conn_b]}, f"datagram_received raised {type(ret).__name__} during the exchange")
                 return rnd
-            nxt += [o for o, _ in outs]
+            nxt += [o for _, o, _ in outs]
         if not nxt:
             return rnd + 1
         inbox, who = nxt, 1 - who
@@ -528,114 +946,304 @@ def is_heartbeat_class(data: bytes) -> bool:
     return len(data) >= 6 and data[:2] == b"2B" and bool(data[3] & 0x02) and not (data[3] & 0x04)
 
 
+def random_world(ctx, rng, pairs, i):
+    """a random script: 1–4 live handlers of random configuration, interleaved random datagrams from varying
+    senders, and (in eventful histories) connection_lost / connection_made / re-configuration / maintenance"""
+    multi = i % 4 == 3
+    names = "ABCD"[: rng.choice([2, 2, 3, 4])] if multi else "A"
+    eventful = i % 2 == 1
+    w = World(ctx, pairs)
+    cfgs = {}
+    for n in names:
+        kind = "rrs" if rng.random() < 0.75 else "base"
+        active = rng.random() < 0.5
+        transport = rng.random() < 0.85
+        how = rng.randrange(4)
+        port = rng.choice(PORTS + SERVICE_PORTS) if rng.random() < 0.8 else rng.randrange(65536)
+        w.new(n, kind, active, port, how)
+        ctx.count(f"ctor:how={how}")
+        if transport:
+            w.made(n)
+        if rng.random() < 0.3:
+            w.set(n, rng.choice(["connected", "connected-call"]), True)
+        sn = rng.choice([0, 0, 1, 0xFFFD, 0xFFFE, 0xFF00])
+        if sn:
+            w.set(n, "sn", sn)
+        cfgs[n] = (kind, active, transport, port, how)
+        ctx.count(cfg_key(cfgs[n]))
+    if multi:
+        ctx.count(f"multi:handlers={len(names)}")
+    length = rng.choice([1, 3, 10, 40, 100, 200]) if i % 7 else 200
+    alt_addr = rng.random() < 0.4
+    for _ in range(length):
+        n = names[rng.randrange(len(names))] if multi else "A"
+        if eventful and rng.random() < 0.08:
+            e = rng.randrange(10)
+            if e == 0:
+                w.lost(n)
+            elif e == 1:
+                w.made(n, pre_closed=rng.random() < 0.3)
+            elif e == 2:
+                w.set(n, "active", rng.random() < 0.5)
+            elif e == 3:
+                w.set(n, "port", rng.choice(PORTS + SERVICE_PORTS))
+            elif e == 4:
+                w.tick(n)
+            elif e == 5:
+                w.set(n, rng.choice(["connected", "connected-call"]), rng.random() < 0.5)
+            elif e == 6:
+                w.set(n, "sn", rng.choice([0, 1, 0xFFFD, 0xFFFE, 0xFFFF, 0x10000, 70000, rng.randrange(0xFFFF)]))
+            elif e == 7:
+                w.lost(n)
+                w.made(n)
+            elif e == 8:
+                w.clock(rng.choice(CLOCK_JUMPS))
+            elif cfgs[n][0] == "rrs":
+                w.set(n, "registry", 0)
+            else:
+                w.clock(rng.choice(CLOCK_JUMPS))
+            ctx.count(f"event:{('lost', 'made', 'set-active', 'set-port', 'tick', 'set-connected', 'set-sn', 'lost+made', 'clock-jump', 'registry-dropped/clock-jump')[e]}")
+            continue
+        dg = random_datagram(rng)
+        addr = ADDRS[rng.randrange(len(ADDRS))] if alt_addr and rng.random() < 0.5 else ADDR_A
+        if addr is not ADDR_A:
+            ctx.count("addr:other-sender")
+        w.rx(n, dg, addr)
+        ab = abstract(dg.data)
+        ctx.count(f"msg:{'none' if ab == 'none' else ab.split(' ')[1]}")
+    for n in names:
+        w.query(n)
+    Clock.offset = 0.0
+    return w, length, cfgs
+
+
 def run(ctx):
     global L
+    saved = {}
     logging.disable(logging.CRITICAL)
     try:
         L = lib()
+        for ln in ("HSTRPDatagramProtocol", "RRSDatagramProtocol"):
+            lg = logging.getLogger(ln)
+            saved[ln] = (lg.level, lg.propagate, list(lg.handlers))
+            lg.handlers = [CAPTURE]
+            lg.propagate = False
+            lg.setLevel(logging.DEBUG)
         _run(ctx)
     finally:
+        for ln, (lvl, prop, hs) in saved.items():
+            lg = logging.getLogger(ln)
+            lg.handlers, lg.propagate = hs, prop
+            lg.setLevel(lvl)
         logging.disable(logging.NOTSET)
+        Clock.uninstall()
+        if _LOOP is not None and not _LOOP.is_closed():
+            _LOOP.close()
+
+
+KINDS = ("rrs", "base")
+BOOLS = (False, True)
 
 
 def _run(ctx):
     ctx.rule = (
-        "datagram histories delivered to HSTRPDatagramProtocol / RRSDatagramProtocol with a recording transport: corpus "
-        "(ack ping-pong of the repaired defect, two-octet S/N), every sequence up to length 4 over 20 datagram classes (both "
-        "tiers; three S/N variants: small, all >= 0x0100, extremes) and up to length 6 over the 12 core classes (thorough) "
-        "from start states connected x {0, 0xFFFD, 0xFFFE} (prefixes shared by snapshot/restore), two composed handlers for "
-        "every class x connected flags, random histories up to 200 datagrams with random type bits / S/N over the whole 16-bit "
-        "range / options / RRS opcodes / radio ids, random truncation and 1-3 bit flips. The oracle reads the datagram as it was "
-        "built (type octet, S/N octets, generator's options / RRS fields), not the library's parse; the model input is the "
-        "abstraction of what the real HSTRP.from_bytes returns. Non-trivial = the datagram parses; distinct = distinct "
-        "(start state, datagram sequence)"
+        "scripts run on live HSTRPDatagramProtocol / RRSDatagramProtocol objects with recording transports, for every "
+        "combination of the mode parameters class x be_active_peer x transport present/absent (ports and constructor call "
+        "styles rotating): corpus; two composed handlers for every class x connected flags x be_active_peer of both; every "
+        "datagram sequence up to length 4 over 20 classes (default configuration) and up to length 3 from two start states "
+        "for each class x be_active_peer, up to length 4 over the 12 core classes for the active peer, up to length 3 over "
+        "the core classes without transport (thorough: up to length 6 over the core classes, be_active_peer by seed), three "
+        "S/N variants; every sequence up to length 3 (4 for the active RRS handler) over 13 events = 8 datagram classes + "
+        "connection_lost, connection_made, be_active_peer toggled, port re-assigned, periodic_maintenance iteration, for all 8 "
+        "mode combinations; every interleaving up to length 3 of 6 datagram classes over two live instances (instance "
+        "isolation); random scripts up to 200 operations with 1-4 live handlers of random configuration, random type bits / "
+        "S/N / options / RRS opcodes / radio ids, truncation, 1-3 bit flips, varying sender addresses, logging on/off, and "
+        "interleaved events. The oracle reads the datagram as it was built, not the library's parse; the model input is the "
+        "abstraction of what the real HSTRP.from_bytes returns. Non-trivial = the datagram parses / an event; distinct = "
+        "distinct (configuration, start state, operation sequence)"
     )
     ctx.trusted_base += [
         "Lean 4.33 kernel",
-        "tools/extract_hstrphandler.py (type-octet graphs, RRS constants, three golden datagrams from the library's serialisers)",
-        "hand-written model of the two datagram_received methods (Model/HstrpHandler.lean) tied to the code by this run's correspondence",
+        "tools/extract_hstrphandler.py (type-octet graphs, RRS constants, golden datagrams, constructor signature, instance attributes, new-handler state, periodic_maintenance output for class x be_active_peer x connected)",
+        "hand-written model of the two datagram_received methods, connection_made / connection_lost and one periodic_maintenance iteration (Model/HstrpHandler.lean) tied to the code by this run's correspondence",
         "HSTRP.from_bytes / as_bytes are used as they are (their byte-exact model is C12's): the model input is derived from the real parser's result; the oracle does not use it for datagrams that are well-formed by construction",
-        "asyncio delivery order and timers (periodic_maintenance) are outside the model: one step per datagram",
+        "asyncio delivery order and timers are outside the model: one step per datagram / per periodic_maintenance iteration (run up to its first sleep)",
     ]
     ctx.assumptions += [
-        "connection_made was called with a transport before datagrams arrive (rrs_confirm uses self.transport unguarded)",
+        "statements about what is sent assume connection_made was called with a transport before datagrams arrive (asyncio guarantees it); handlers without transport are exercised too: they must stay silent, move their state identically and not raise — except that rrs_confirm / periodic_maintenance use self.transport unguarded, so a registration request (a maintenance iteration while not connected) on a transport-less handler ends in AttributeError (modelled exactly: no_transport_raises_iff; counted as precondition:*)",
         "message classes by dispatch priority: connect bit > heartbeat bit > close bit > ack bit > reject bit > data; "
         "'an acknowledgement' = a message with the ack bit that is not heartbeat-class",
         "two composed handlers: heartbeats are echoed by design while connected, so an exchange started by a heartbeat between "
         "two connected handlers does not end; every other exchange ends after one reply",
         "well-formed = type octet < 64, documented option types, one of the five RRS opcodes or the RCP test vector as payload",
+        "be_active_peer and port are stored configuration that datagram handling never reads (config_irrelevant); connection_lost counts as a close for the connected flag",
     ]
     pairs = []
     boosted = ctx.boost > 1
+    seed = ctx.seed
+
+    def enough():
+        return len(ctx.failures) >= MAX_FAILURES
 
     def flush(component="hstrp.sequences"):
         if pairs and not ctx.search_only and ctx.driver_ok:
             ctx.correspond(component, list(pairs))
         pairs.clear()
 
-    # ---- corpus
+    def port_of(i):
+        return PORTS[(i + seed) % len(PORTS)]
+
+    combos = [(k, a, t) for k in KINDS for a in BOOLS for t in BOOLS]  # class x be_active_peer x transport
+    # ---- corpus: every mode combination
     for name, seq in CORPUS:
-        for kind in ("rrs", "base"):
-            run_history(ctx, kind, (False, 0), seq, pairs)
-            ctx.case(("corpus", name, kind), sample={"corpus": name, "datagrams": [d.data.hex() for d in seq]} if kind == "rrs" else None)
+        for ci, (kind, active, tr) in enumerate(combos):
+            try:
+                run_history(ctx, (kind, active, tr, port_of(ci), ci % 4), (False, 0), seq, pairs)
+            except SkipHistory:
+                continue
+            ctx.case(("corpus", name, kind, active, tr), sample={"corpus": name, "datagrams": [d.data.hex() for d in seq]} if ci == 0 else None)
     flush("hstrp.corpus")
-    # ---- two composed handlers (ping-pong)
-    for kind in ("rrs", "base"):
+    # ---- two composed handlers (ping-pong): class x S/N variant x datagram class x connected flags x be_active_peer of both
+    for kind in KINDS:
         for variant in (0, 1):
             for cname, dg in classes(variant):
-                for ca in (False, True):
-                    for cb in (False, True):
-                        rounds = pingpong(ctx, kind, dg.data, ca, cb, pairs)
-                        ctx.case(("pingpong", kind, variant, cname, ca, cb))
+                if enough():
+                    break
+                for conn in ((False, False), (False, True), (True, False), (True, True)):
+                    for active in ((False, False), (False, True), (True, False), (True, True)):
+                        try:
+                            rounds = pingpong(ctx, kind, dg.data, conn, active, pairs)
+                        except SkipHistory:
+                            continue
+                        ctx.case(("pingpong", kind, variant, cname, conn, active))
                         ctx.count(f"pingpong:{'endless-heartbeat' if rounds is None else 'rounds=' + str(rounds)}")
                         if is_heartbeat_class(dg.data):
                             continue  # echo by design: lasts as long as both are connected
                         if rounds is None or rounds > 2:
-                            ctx.fail("pingpong", {"pingpong": dg.data.hex(), "kind": kind, "connected": [ca, cb]}, "two composed handlers keep answering each other", expected="quiescent after one reply", actual=rounds)
+                            ctx.fail("pingpong", {"pingpong": dg.data.hex(), "kind": kind, "connected": list(conn), "active": list(active)}, "two composed handlers keep answering each other", expected="quiescent after one reply", actual=rounds)
     flush("hstrp.pingpong")
-    # ---- exhaustive sequences: three start states, each with its own S/N variant
-    starts = [(False, 0), (True, 0xFFFD), (False, 0xFFFE)]
+    # ---- exhaustive datagram sequences
     full_len = 4
-    for si, start in enumerate(starts):
-        L_here = full_len if si == 0 else full_len - 1
-        n = dfs(ctx, "rrs", start, classes(si), L_here, pairs, flush)
-        ctx.count(f"exhaustive:rrs:start={start}:sn-variant={si}:len<={L_here}", n)
-    n = dfs(ctx, "base", (False, 0), classes(1), full_len - 1, pairs, flush)
-    ctx.count(f"exhaustive:base:sn-variant=1:len<={full_len - 1}", n)
+    #   default configuration, deepest
+    n = dfs_classes(ctx, pairs, flush, ("rrs", False, True, 50000, 0), (False, 0), classes(0), full_len)
+    ctx.count(f"exhaustive:rrs:passive:start=(False, 0):sn-variant=0:len<={full_len}", n)
+    #   every class x be_active_peer with transport, two further start states each
+    for kind in KINDS:
+        for active in BOOLS:
+            for si, start in enumerate([(True, 0xFFFD), (False, 0xFFFE)] if kind == "rrs" else [(False, 0), (True, 0)]):
+                cfg = (kind, active, True, port_of(si + 2 * active), (si + active) % 4)
+                n = dfs_classes(ctx, pairs, flush, cfg, start, classes(si + 1), full_len - 1)
+                ctx.count(f"exhaustive:{kind}:{'active' if active else 'passive'}:start={start}:sn-variant={si + 1}:len<={full_len - 1}", n)
+    #   the active peer, deeper over the core classes
+    n = dfs_classes(ctx, pairs, flush, ("rrs", True, True, 30001, 1), (False, 0), classes(seed % 3)[:N_CORE], full_len)
+    ctx.count(f"exhaustive:rrs:active:core12:len<={full_len}", n)
+    #   no transport (connection_made never called): silent, same state evolution
+    for kind in KINDS:
+        for active in BOOLS:
+            cfg = (kind, active, False, port_of(active), 0)
+            n = dfs_classes(ctx, pairs, flush, cfg, (False, 0xFFFE if active else 0), classes((seed + active) % 3)[:N_CORE], 3)
+            n += dfs_classes(ctx, pairs, flush, cfg, (True, 0), classes(0), 2)
+            ctx.count(f"exhaustive:{kind}:{'active' if active else 'passive'}:no-transport:core12:len<=3+all20:len<=2", n)
     flush()
     if ctx.thorough():
-        n = dfs(ctx, "rrs", (False, 0xFFFC), classes(ctx.seed % 3)[:N_CORE], 6, pairs, flush)
-        ctx.count("exhaustive:rrs:core12:len<=6", n)
+        act = bool((seed // 3) % 2)
+        n = dfs_classes(ctx, pairs, flush, ("rrs", act, True, 50000, 0), (False, 0xFFFC), classes(seed % 3)[:N_CORE], 6)
+        ctx.count(f"exhaustive:rrs:{'active' if act else 'passive'}:core12:len<=6", n)
+        n = dfs_classes(ctx, pairs, flush, ("rrs", not act, True, 30001, 1), (False, 0), classes((seed + 1) % 3), full_len)
+        ctx.count(f"exhaustive:rrs:{'passive' if act else 'active'}:all20:len<={full_len}", n)
         flush()
     elif boosted:
-        # failing-input search after a broken proof / correspondence: deeper over the core classes, bounded
+        # failing-input search after a broken proof / correspondence / source drift: deeper over the core classes, bounded
         for v in (1, 2):
-            n = dfs(ctx, "rrs", (False, 0xFFFC), classes(v)[:N_CORE], 5, pairs, flush)
-            ctx.count(f"exhaustive:rrs:core12:sn-variant={v}:len<=5", n)
+            n = dfs_classes(ctx, pairs, flush, ("rrs", v == 2, True, 50000, 0), (False, 0xFFFC), classes(v)[:N_CORE], 5)
+            ctx.count(f"exhaustive:rrs:{'active' if v == 2 else 'passive'}:core12:sn-variant={v}:len<=5", n)
         flush()
-    # plain (no snapshot/restore) replays of all short sequences: guards the prefix sharing itself
+    # ---- exhaustive event sequences: datagrams interleaved with connection_lost / connection_made / re-configuration / maintenance
+    for ci, (kind, active, tr) in enumerate(combos):
+        deep = kind == "rrs" and active and tr
+        maxlen = (4 if deep else 3) + (1 if ctx.thorough() and kind == "rrs" else 0)
+        cfg = (kind, active, tr, port_of(ci), ci % 4)
+        try:
+            w = make_world(ctx, pairs, cfg, (bool(ci % 2), 0))
+        except SkipHistory:
+            continue
+        n = dfs(ctx, w, event_symbols("A", classes((seed + ci) % 3)), maxlen, flush, ("events", cfg))
+        ctx.count(f"exhaustive-events:{kind}:active={int(active)}:transport={int(tr)}:len<={maxlen}", n)
+        ctx.count(cfg_key(cfg), n)
+    flush("hstrp.events")
+    # ---- two live instances, every interleaving: what one handler sees must not leak into the other
+    cl = dict(classes(0))
+    six = [cl["connect"], cl["heartbeat"], cl["close"], cl["rrs-register"], cl["rrs-offline"], cl["rrs-register-2"]]
+    for pi, (ka, aa, kb, ab) in enumerate([("rrs", False, "rrs", True), ("rrs", True, "base", False), ("base", True, "base", False)]):
+        w = World(ctx, pairs)
+        try:
+            w.new("A", ka, aa, 30001, 0)
+            w.made("A")
+            w.new("B", kb, ab, 30002, 1)
+            w.made("B")
+        except SkipHistory:
+            continue
+        w.end_setup()
+        syms = [(f"{n}:{j}", sym_rx(n, d), True) for n in "AB" for j, d in enumerate(six)]
+        n = dfs(ctx, w, syms, 3, flush, ("two-instances", pi))
+        # a third handler built after the others have seen traffic starts empty
+        for d in six:
+            w.rx("A", d)
+            w.rx("B", d)
+        w.new("C", ka, ab, 30003, 2)
+        w.made("C")
+        w.rx("C", cl["heartbeat"])
+        for x in "ABC":
+            w.query(x)
+        ctx.count(f"exhaustive-two-instances:{ka}+{kb}:len<=3", n)
+        ctx.count("multi:handlers=2", n)
+    flush("hstrp.instances")
+    # plain (no snapshot/restore) replays of all short sequences: guards the prefix sharing itself; configurations rotate
     import itertools
 
-    cl = classes((ctx.seed + 1) % 3)
+    cl = classes((seed + 1) % 3)
+    k = 0
     for Lq in (1, 2, 3):
         for seq in itertools.product(range(len(cl)), repeat=Lq):
-            if Lq == 3 and (seq[0] * 7 + seq[1] * 3 + seq[2] + ctx.seed) % 4:
+            if Lq == 3 and (seq[0] * 7 + seq[1] * 3 + seq[2] + seed) % 4:
                 continue
-            run_history(ctx, "rrs", (False, 0), [cl[i][1] for i in seq], pairs)
-            ctx.case(("plain", seq))
+            kind, active, tr = combos[(k + seed) % len(combos)] if k % 2 else ("rrs", bool(k & 2), True)
+            k += 1
+            if enough():
+                break
+            try:
+                run_history(ctx, (kind, active, tr, port_of(k), k % 4), (False, 0), [cl[i][1] for i in seq], pairs)
+            except SkipHistory:
+                continue
+            ctx.case(("plain", kind, active, tr, seq))
     flush("hstrp.plain-sequences")
-    # ---- random histories (a boosted search is capped: quick stays within a few minutes)
-    nrand = (500 if not ctx.thorough() else 6000) * min(ctx.boost, 3)
+    # ---- random scripts (a boosted search is capped: quick stays within a few minutes)
+    nrand = (600 if not ctx.thorough() else 6000) * min(ctx.boost, 3)
+    Clock.install()
     for i in range(nrand):
-        length = ctx.rng.choice([1, 3, 10, 40, 100, 200]) if i % 7 else 200
-        kind = "rrs" if i % 5 else "base"
-        start = (ctx.rng.random() < 0.3, ctx.rng.choice([0, 0, 1, 0xFFFD, 0xFFFE, 0xFF00]))
-        seq = [random_datagram(ctx.rng) for _ in range(length)]
-        hd = run_history(ctx, kind, start, seq, pairs)
-        ctx.case(("random", kind, start, tuple(d.data for d in seq)), sample={"kind": kind, "start": list(start), "length": length, "first": [d.data.hex() for d in seq[:3]], "end_state": hd.state()} if length >= 40 else None)
+        if enough():
+            break
+        log_on = i % 5 == 4
+        if log_on:
+            logging.disable(logging.NOTSET)
+            ctx.count("mode:logging-on")
+        try:
+            w, length, cfgs = random_world(ctx, ctx.rng, pairs, i)
+        except SkipHistory:
+            continue
+        finally:
+            Clock.offset = 0.0
+            if log_on:
+                logging.disable(logging.CRITICAL)
+        ctx.case(("random", i, tuple(cfgs.items()), tuple(op if op[0] != "rx" else (op[1], op[2].data, op[3]) for op in w.script)),
+                 sample={"handlers": {n: list(c) for n, c in cfgs.items()}, "operations": length, "end_state": {n: w.state(w.h[n]) for n in w.h}} if length >= 40 else None)
         if len(pairs) > 300000:
             flush("hstrp.random")
+    Clock.uninstall()
     flush("hstrp.random")
+    if CAPTURE.errors:
+        ctx.fail("log-call-failed", {"script": []}, "a log call of the handler could not be formatted", expected=0, actual=CAPTURE.errors)
+    ctx.count("mode:log-records-formatted", CAPTURE.records)
     ctx.exhaustive = False
 
 
@@ -651,6 +1259,7 @@ def replay(obj):
     class C:
         failures = []
         evaluations = 0
+        hist = {}
 
         def fail(self, kind, input, what, expected=None, actual=None):
             self.failures.append((kind, what, expected, actual))
@@ -660,12 +1269,24 @@ def replay(obj):
 
     c = C()
     pairs = []
-    if "datagrams" in inp:
-        run_history(c, inp.get("handler", "rrs"), tuple(inp.get("start", [False, 0])), [Dg.unjson(d) for d in inp["datagrams"]], pairs)
+    if "script" in inp and inp["script"]:
+        w = World(c, pairs)
+        Clock.install()
+        try:
+            run_script(w, script_unjson(inp["script"]))
+        except Exception as e:  # noqa
+            print("script stopped:", type(e).__name__, e)
+        finally:
+            Clock.uninstall()
+    elif "datagrams" in inp:  # records written before configurations were part of the input
+        start = tuple(inp.get("start", [False, 0]))
+        try:
+            run_history(c, (inp.get("handler", "rrs"), False, True, 50000, 0), start, [Dg.unjson(d) for d in inp["datagrams"]], pairs)
+        except SkipHistory:
+            pass
     elif "pingpong" in inp:
-        ca, cb = inp.get("connected", [False, False])
         first = bytes.fromhex(inp["pingpong"])
-        rounds = pingpong(c, inp.get("kind", "rrs"), first, ca, cb, pairs, max_rounds=8)
+        rounds = pingpong(c, inp.get("kind", "rrs"), first, tuple(inp.get("connected", [False, False])), tuple(inp.get("active", [False, False])), pairs, max_rounds=8)
         print("exchange ended after", rounds, "rounds" if rounds is not None else "(still talking after 8 rounds)")
         if not is_heartbeat_class(first) and (rounds is None or rounds > 2):
             c.failures.append(("pingpong", "two composed handlers keep answering each other", 2, rounds))
